@@ -171,6 +171,12 @@ def run(tier):
                 key = 'C19:' + ','.join(cl) + ':' + '+'.join(feat)
             v.reject(key, {'args': a, 'cli': cli_args(a, '<dir>'), 'failed': cl,
                            'files': common.trim(r['files'], 800), 'raised': r['raised']})
+    def _corrupt(r):
+        if r['raised'] or not r['files'] or not r['files'][0]:
+            return None
+        r['files'][0].append([r['files'][0][0][0], r['files'][0][0][1], 987])
+        return r
+    common.binding_selftest('c19', 'C19_Data', recs, _corrupt)
     rc = v.finish()
     common.write_evidence(
         'C19', tier, 'model_checking',
